@@ -349,6 +349,29 @@ pub fn eval_plan(w: &CliWorld, cmd: &UCmd, plan: &Plan, known: &KnownFindings) -
       );
       return Ok(oc);
     }
+    // after a write error that left the file untouched, an `Applied N` line (if any is
+    // printed at all) must still not count edits that are not in the files
+    if let (Some(wf), Some(got)) = (write_fault, applied_line) {
+      if wf.kind == "write-eio" {
+        let mut present = 0usize;
+        let mut countable = true;
+        for (path, old) in &before {
+          let Some(new) = after.get(path) else { continue };
+          if new == old {
+            continue;
+          }
+          let edits: Vec<AnnEdit> = ann.get(path).cloned().unwrap_or_default();
+          match model_results(old, &edits).and_then(|m| m.into_iter().find(|(b, _)| &b == &new).map(|(_, n)| n)) {
+            Some(n) => present += n,
+            None => countable = false,
+          }
+        }
+        if countable && got != present {
+          oc.violation = viol("APPLIED-COUNT", format!("writing {} failed; `Applied {got} changes` was printed but the files contain {present} of the announced edits", wf.path));
+          return Ok(oc);
+        }
+      }
+    }
     if write_fault.is_none() && n_assertable {
       let got = applied_line.unwrap_or(0);
       // a model with ties may accept a different number of edits; accept any modelled count
